@@ -25,7 +25,7 @@ ASSUMPTIONS = [
     "von Mises compared on [mu-pi, mu+pi] for kappa < 50 (scipy switches to a normal approximation with abs error ~2e-7 above)",
     "GeneralizedGamma docstring exp[-(lambda x^c)] read as exp[-(lambda x)^c] (Ochi 1992; the literal form does not normalise)",
 ]
-REQUIRED = ["dist.compare", "rel.monotone", "rel.roundtrip", "rel.explicit-eq-instance", "rel.forms"]
+REQUIRED = ["dist.compare", "rel.monotone", "rel.roundtrip", "rel.explicit-eq-instance", "rel.forms", "rel.history-eq-fresh"]
 CASE_TIMEOUT_S = 120
 
 # absolute floor of a probability computed in double precision (8 eps); a circular cdf (series) is
@@ -248,6 +248,36 @@ def run_case(case, ctx):
                 value=p[n],
                 other=other,
             )
+
+    # ---- history: evaluate, change the parameters of the SAME object (assignment, then a fit), evaluate again ----
+    hist = _mk(fam, p)
+    hist.cdf(x)
+    hist.icdf(probs)
+    for n in names:
+        setattr(hist, n, other[n])
+    ctx.check("rel.history-parameters-assigned", all(hist.parameters[n] == other[n] for n in names), f"{fam}: assigned parameter values are not reported by .parameters", family=fam)
+    with np.errstate(all="ignore"):
+        xo = np.asarray(R.icdf(fam, QS[3:-3], **other), float)
+    xo = xo[np.isfinite(xo)]
+    if xo.size:
+        got_h = np.asarray(hist.cdf(xo), float)  # judged by the monitor against the CURRENT parameters
+        fresh = np.asarray(_mk(fam, other).cdf(xo), float)
+        ctx.check("rel.history-eq-fresh", _nan_equal(got_h, fresh), f"{fam}: evaluation after a parameter change differs from a fresh instance with those parameters (stale state)", family=fam, before=p, after=other)
+        hist.pdf(xo)
+        hist.icdf(probs)
+    if fam in ("lognormal", "normal", "lnnf", "rayleigh", "gumbel_r"):
+        data = np.asarray(R.icdf(fam, np.random.default_rng(case["sub"]).random(300), **p), float)
+        data = data[np.isfinite(data)]
+        try:
+            hist.fit(data)
+            cur = dict(hist.parameters)
+            if R.admissible(fam, {k: float(v) for k, v in cur.items()}):
+                xf = np.asarray(R.icdf(fam, QS[5:-5], **{k: float(v) for k, v in cur.items()}), float)
+                hist.cdf(xf)  # monitor: against the fitted parameters
+                hist.pdf(xf)
+                ctx.check("rel.history-eq-fresh", _nan_equal(hist.cdf(xf), _mk(fam, {k: float(v) for k, v in cur.items()}).cdf(xf)) or bool(np.allclose(hist.cdf(xf), _mk(fam, {k: float(v) for k, v in cur.items()}).cdf(xf), rtol=1e-12, atol=0)), f"{fam}: evaluation after a fit differs from a fresh instance with the fitted parameters", family=fam, fitted=cur)
+        except Exception as e:  # noqa: BLE001
+            ctx.count("rel.history-fit-failed")
 
     # ---- array_like forms ---------------------------------------------
     xi = np.unique(np.round(x[(x > -1e6) & (x < 1e6)]))[:12]
